@@ -326,6 +326,6 @@ def _build(run, crate_name, only_kernel=False):
     ]
     if only_kernel:
         return crate, {l["harness"]: l for l in lem}
-    if run.tier == "quick":   # the two slowest inductive steps (250-400 s each) run in the thorough tier only
-        lem = [l for l in lem if l["harness"] not in ("one_rule_application_keeps_invariants", "set_placemarker_stores_at_its_index")]
-    run.kani(crate, lem, timeout=600 if run.tier == "quick" else 1800)
+    if run.tier == "quick":   # the slowest inductive step (SetPlacemarkerN, 400 s) runs in the thorough tier only; all others run concurrently
+        lem = [l for l in lem if l["harness"] not in ("set_placemarker_stores_at_its_index",)]
+    run.kani(crate, lem, timeout=900 if run.tier == "quick" else 1800)
